@@ -48,11 +48,14 @@ Inductive tx_payload : Set :=
 
 Inductive sim_op : Set :=
 | OpTx (by_rx : bool) (t : Z) (p : tx_payload)   (* set_bus_time t; the sender PHY (or the receiver itself) transmits *)
+| OpTxNone (by_rx : bool) (t : Z)                 (* set_bus_time t; transmit_telegram(now, |_| None): the closure decides
+                                                     to send nothing, transmit_data gets length 0 (an empty enqueue) *)
 | OpPoll (t : Z).                                 (* set_bus_time t; the receiver polls *)
 
 Inductive sim_out : Set :=
 | SoTx (n : nat) (exp : option Z)                 (* bytes_sent, expects_reply *)
 | SoRaw (n : nat)
+| SoNone                                          (* transmit_telegram returned None *)
 | SoPoll (d : rlog) (r : option telegram) (pending : nat).
 
 Record sim_state : Set := mkSim { ss_bus : simbus; ss_tx : simphy; ss_rx : simphy }.
@@ -90,6 +93,12 @@ Definition sim_step (all : bool) (st : sim_state) (op : sim_op) : res (sim_state
       let* y := sim_transmit bus p w in
       let '(bus', p') := y in
       Ok (if by_rx then mkSim bus' (ss_tx st) p' else mkSim bus' p' (ss_rx st), out)
+  | OpTxNone by_rx t =>
+      let bus := set_bus_time (ss_bus st) t in
+      let p := if by_rx then ss_rx st else ss_tx st in
+      let* y := sim_transmit bus p [] in
+      let '(bus', p') := y in
+      Ok (if by_rx then mkSim bus' (ss_tx st) p' else mkSim bus' p' (ss_rx st), SoNone)
   | OpPoll t =>
       let bus := set_bus_time (ss_bus st) t in
       let* x := sim_poll all bus (ss_rx st) in
